@@ -102,8 +102,9 @@ class Target:
 
 
 class Family:
-    def __init__(self, name, tparams, classes, struct, prims, extra_params=''):
+    def __init__(self, name, tparams, classes, struct, prims, extra_params='', prop='C00'):
         self.name, self.tparams, self.classes, self.struct, self.prims = name, list(tparams), classes, struct, prims
+        self.prop = prop                                # the property whose model transliterates these bodies: one generated file each
         self.extra_params = extra_params                # explicit embeddings, e.g. '(ofNat : Nat → K) '
         self.binders = '{' + ' '.join(tparams) + ' : Type}' + (' ' + classes if classes else '')
 
@@ -874,7 +875,7 @@ MORPH = Family(
         # the translated bodies may call each other: these are instantiated with the generated definitions themselves
         'open': Prim('open_', ['img', 'se'], 'img'),
         'close': Prim('close', ['img', 'se'], 'img'),
-    })
+    }, prop='C02')
 
 NUM = '[Add K] [Sub K] [Mul K] [Div K] [Neg K] [Zero K]'
 EMBED = '(ofNat : Nat → K) (ofInt : Int → K) (flit : Nat → Nat → K) '
@@ -885,31 +886,31 @@ CONV = Family(
         'int': Prim('trunc', ['K'], 'int', doc='Python `int(x)` of a float: truncation toward zero'),
         'convolve1d': Prim('convolve1d', ['arr', 'vec', 'int', 'mode', 'K'], 'arr',
                            kw={'axis': 2, 'mode': 3, 'cval': 4}),
-    }, extra_params=EMBED)
+    }, extra_params=EMBED, prop='C06')
 
 THRESH = Family(
-    'thresholding', ['K', 'X', 'S'], '[Add K] [Sub K] [Mul K] [Div K] [LT K] [DecidableLT K]', 'ThreshPrims',
+    'thresholding', ['K', 'X', 'S'], '[Add K] [Sub K] [Mul K] [Div K] [LT K] [DecidableLT K] [LE K] [DecidableLE K]', 'ThreshPrims',
     {
         'rank_filter': Prim('rank_filter', ['fld', 'se', 'int'], 'fld'),
         '.sum()': Prim('se_sum', ['se'], 'int', doc='number of non-zero entries of a 0/1 structuring element'),
-    }, extra_params=EMBED)
+    }, extra_params=EMBED, prop='C16')
 
 LAPL = Family(
-    'laplacian', ['K', 'A'], '[Add K] [Sub K] [Div K] [Neg K] [LT K] [DecidableLT K]', 'LaplPrims',
+    'laplacian', ['K', 'A'], '[Add K] [Sub K] [Div K] [Neg K] [LT K] [DecidableLT K] [LE K] [DecidableLE K]', 'LaplPrims',
     {
         'np.array': Prim('as_float', ['arr'], 'arr', drop_kw={'dtype'}, doc='`np.array(array, dtype=float)`'),
         '.ndim': Prim('ndim', ['arr'], 'nat'),
         'convolve': Prim('convolve', ['arr', 'mat', 'str'], 'arr', kw={'mode': 2}),
-    }, extra_params=EMBED)
+    }, extra_params=EMBED, prop='C06')
 
 SOFT = Family(
-    'soft threshold', ['K', 'X'], '[Add K] [Sub K] [Mul K] [Neg K] [LT K] [DecidableLT K] [DecidableEq K]', 'SoftPrims',
+    'soft threshold', ['K', 'X'], '[Add K] [Sub K] [Mul K] [Neg K] [LT K] [DecidableLT K] [LE K] [DecidableLE K] [DecidableEq K]', 'SoftPrims',
     {
         'np.abs': Prim('abs', ['K'], 'K', elementwise=True),
         'int': Prim('trunc', ['K'], 'int'),
         '.dtype.kind in': Prim('dtype_kind_in', ['fld', 'str'], 'bool', doc='`f.dtype.kind in "iu"`'),
         '.dtype.type()': Prim('dtype_cast', ['fld', 'K'], 'K', doc='`f.dtype.type(v)`: the scalar `v` converted to the dtype of `f`'),
-    }, extra_params=EMBED)
+    }, extra_params=EMBED, prop='C16')
 
 EXTREMA = Family(
     'extrema', ['I', 'S', 'B'], '', 'ExtremaPrims',
@@ -922,7 +923,7 @@ EXTREMA = Family(
         '_morph.regmin_max': Prim('regmin_max', ['img', 'se', 'bool'], 'bimg', pos=[0, 1, 3]),
         'np.ascontiguousarray': Prim('as_bool', ['img'], 'img', drop_kw={'dtype'}, doc='`np.ascontiguousarray(ref, dtype=np.bool_)`'),
         '_morph.close_holes': Prim('close_holes', ['img', 'se'], 'bimg'),
-    })
+    }, prop='C14')
 
 STRETCH = Family(
     'stretch', ['K', 'X', 'D', 'Sh'],
@@ -934,7 +935,7 @@ STRETCH = Family(
         'np.ptp': Prim('ptp', ['fld'], 'K'),
         '.shape:fld': Prim('shape', ['fld'], 'shp'),
         'np.zeros': Prim('zeros', ['shp', 'dtype'], 'fld'),
-    }, extra_params=EMBED)
+    }, extra_params=EMBED, prop='C20')
 
 HISTO = Family(
     'histogram thresholds', ['H', 'G'], '', 'HistPrims',
@@ -943,10 +944,10 @@ HISTO = Family(
         'np.asanyarray': Prim('asanyarray', ['hist'], 'hist', drop_kw={'dtype'}),
         'setitem': Prim('setitem', ['hist', 'nat', 'nat'], 'hist', doc='`h[i] = v`'),
         '_histogram.otsu': Prim('otsu', ['hist'], 'nat'),
-    })
+    }, prop='C16')
 
 RC = Family(
-    'Riddler-Calvard', ['K', 'H', 'G'], '[Add K] [Div K] [LT K] [DecidableLT K]', 'RcPrims',
+    'Riddler-Calvard', ['K', 'H', 'G'], '[Add K] [Sub K] [Mul K] [Div K] [LT K] [DecidableLT K] [LE K] [DecidableLE K]', 'RcPrims',
     {
         'fullhistogram': Prim('fullhistogram', ['pimg'], 'hist'),
         'setitem': Prim('setitem', ['hist', 'nat', 'nat'], 'hist', doc='`h[i] = v`'),
@@ -957,7 +958,7 @@ RC = Family(
         'np.flipud': Prim('flipud', ['hist'], 'hist'),
         'np.arange': Prim('arange', ['nat'], 'hist'),
         'hist*hist': Prim('mul', ['hist', 'hist'], 'hist', doc='elementwise product of two integer arrays'),
-    }, extra_params=EMBED)
+    }, extra_params=EMBED, prop='C16')
 
 TARGETS = [
     Target('morph.py', 'open', [('f', 'img'), ('Bc', 'se')], 'img', MORPH),
@@ -1013,31 +1014,41 @@ def translate_target(repo: Path, t: Target, trees: dict) -> list[str]:
     return Tr(t, f).definition()
 
 
+PRELUDE = ['/- GENERATED by translator/pybody.py. Shared prelude of the translated Python bodies (Generated/PyBodies<Cxx>.lean). Do not edit. -/',
+           'namespace Mahotas.Generated.Py', '',
+           '/-- `while c: body` under a reviewed iteration bound: at most `fuel` iterations (the tie theorems show the bound is not hit) -/',
+           'def whileFuel {σ : Type} : Nat → (σ → Bool) → (σ → σ) → σ → σ',
+           '  | 0, _, _, s => s',
+           '  | n + 1, c, b, s => if c s then whileFuel n c b (b s) else s', '',
+           'end Mahotas.Generated.Py', '']
+
+
 def generate(repo: Path, outdir: Path) -> dict:
-    p = outdir / 'PyBodies.lean'
-    old = p.read_text() if p.exists() else ''
+    """one file per property (`PyBodies<Cxx>.lean`: the bodies that property's model transliterates) on top of the shared
+    prelude `PyBodies.lean`, so that a body whose new text no longer type-checks breaks the ties of its own property only"""
     failed, names, res = {}, {}, {}
-    s = ['/- GENERATED by translator/pybody.py from the current /repo sources. Do not edit. -/',
-         'set_option linter.unusedVariables false', 'namespace Mahotas.Generated.Py', '',
-         '/-- `while c: body` under a reviewed iteration bound: at most `fuel` iterations (the tie theorems show the bound is not hit) -/',
-         'def whileFuel {σ : Type} : Nat → (σ → Bool) → (σ → σ) → σ → σ',
-         '  | 0, _, _, s => s',
-         '  | n + 1, c, b, s => if c s then whileFuel n c b (b s) else s', '']
+    changed = _write_if_changed(outdir / 'PyBodies.lean', '\n'.join(PRELUDE))
     trees = {}
-    for fam in FAMILIES:
-        s += [f'/-! ## family `{fam.name}` -/', ''] + fam.struct_lines() + ['']
-        for t in [t for t in TARGETS if t.family is fam]:
-            try:
-                lines = translate_target(repo, t, trees)
-            except Exception as e:  # noqa: the body left the subset (or the function is gone): keep the last text
-                lines = _stale(old, t.key)
-                if lines is None:
-                    raise
-                failed[t.key] = f'{type(e).__name__}: {e}'
-            names[t.key] = defined_names('\n'.join(lines))
-            s += [f'-- BEGIN block {t.key}'] + lines + [f'-- END block {t.key}', '']
-    s += ['end Mahotas.Generated.Py', '']
-    res['pybodies_changed'] = _write_if_changed(p, '\n'.join(s))
+    for prop in sorted({f.prop for f in FAMILIES}):
+        p = outdir / f'PyBodies{prop}.lean'
+        old = p.read_text() if p.exists() else ''
+        s = [f'/- GENERATED by translator/pybody.py from the current /repo sources (bodies tied to Model/{prop}.lean). Do not edit. -/',
+             'import Mahotas.Generated.PyBodies', 'set_option linter.unusedVariables false', 'namespace Mahotas.Generated.Py', '']
+        for fam in [f for f in FAMILIES if f.prop == prop]:
+            s += [f'/-! ## family `{fam.name}` -/', ''] + fam.struct_lines() + ['']
+            for t in [t for t in TARGETS if t.family is fam]:
+                try:
+                    lines = translate_target(repo, t, trees)
+                except Exception as e:  # noqa: the body left the subset (or the function is gone): keep the last text
+                    lines = _stale(old, t.key)
+                    if lines is None:
+                        raise
+                    failed[t.key] = f'{type(e).__name__}: {e}'
+                names[t.key] = defined_names('\n'.join(lines))
+                s += [f'-- BEGIN block {t.key}'] + lines + [f'-- END block {t.key}', '']
+        s += ['end Mahotas.Generated.Py', '']
+        changed = _write_if_changed(p, '\n'.join(s)) or changed
+    res['pybodies_changed'] = changed
     res['pybodies'] = len(TARGETS)
     res['_failed'] = failed
     res['_names'] = names
